@@ -526,7 +526,7 @@ def expected_values(expected):
 # ------------------------------------------------------------------------------------------------ faults
 FAULT_KINDS = ["unknown-var", "non-numeric", "over-long", "negative", "inverted", "out-of-range", "unbalanced",
                "unknown-function", "operand-type", "operand-not-literal", "bad-operator", "function+fault", "nested-path",
-               "percent", "dap4", "byte-mutation", "too-many-index"]
+               "percent", "dap4", "byte-mutation", "too-many-index", "repeated-item"]
 
 # operands that are not Python literals: ast.literal_eval raises SyntaxError (not ValueError) on most of them
 NOT_LITERALS = ["(", ")", "1%202", "=5", ">5", "<1", "[", "]", "'", '"', "1+", "0x", "1e", "--", "1,2", "()", "[1,2", "{", "*",
@@ -611,6 +611,25 @@ def inject_fault(rng, spec, q, kind):
         if r < 0.4:
             return "".join("%%%02X" % ord(ch) if rng.random() < 0.3 else ch for ch in base)
         return base + rng.choice(["%ZZ", "%", "%5", "%5b1%5d", "%2", "%%", "%26", "%2C" + a, "%3E1", "%41", "%7e"])
+    if kind == "repeated-item":
+        # the same variable named twice with a hyperslab: the second one is applied to what the first one left
+        # (valid when it still fits, an error when it does not; either way a complete answer)
+        v = rng.choice(arrays) if arrays else None
+        if v is None:
+            return with_item("a[0],a[0]")
+        n = v["shape"][0]
+        i = rng.randrange(n) if n else 0
+        j = rng.randrange(i, n) if n else 0
+        # (unit strides only: how numpy's Arrayterator composes two STRIDED slices of one variable is not modelled)
+        form = rng.choice(["[%d]" % i, "[%d:%d]" % (i, j), "[%d:%d]" % (i, n + 3), "[0:%d]" % max(n - 1, 0)])
+        item = v["name"] + form
+        grids = [g for g in spec["vars"] if g["k"] == "g"]
+        if grids and rng.random() < 0.3:
+            g = rng.choice(grids)
+            m = g["array"]["shape"][0] if g["array"]["shape"] else 1
+            k = rng.randrange(m) if m else 0
+            item = "%s[%d]" % (g["name"], k) if rng.random() < 0.5 else "%s.%s[%d]" % (g["name"], g["array"]["name"], k)
+        return with_item(item + "," + item + ("," + item if rng.random() < 0.2 else ""))
     if kind == "dap4":
         return "dap4.ce=" + rng.choice([q, "/" + a, a, ""])
     # byte-level mutation of a valid CE
